@@ -25,7 +25,7 @@ from wannierberri.grid import Kpoint as _kp
 
 PROPERTY = "C10"
 LEVEL = "exploration"
-BUDGET = dict(quick=60, thorough=900)
+BUDGET = dict(quick=45, thorough=900)
 MAX_RUNS = dict(quick=6000, thorough=10 ** 7)
 RULE = ("each run draws lattice/point group, grid (regular or tetrahedral), refinement mesh, adpt_fac, iteration count, "
         "steering profile (which cells get refined: natural / hot spot / two hot spots / alternating / random), storage "
